@@ -47,6 +47,9 @@ def bearer_cases(rng, tier):
             for st in STATES:
                 for ts, rq in (("a b", None), ("a b", "a"), ("a", "a b"), ("a b", ["a", "c"]), ("", ["z"]), ("b", "  a  ")):
                     out.append({"kind": "bearer", "header": h, "state": st, "tscope": ts, "required": rq, "via": via})
+        # no Authorization header at all, the token string in the URL query: "served iff the request carries an Authorization header …"
+        for st in STATES:
+            out.append({"kind": "bearer", "header": None, "state": st, "tscope": "a b", "required": "a", "via": via, "query_token": True})
     return out
 
 
@@ -230,7 +233,7 @@ def run_protector(rp, scopes, headers, **kw):
         return {"raised": type(e).__name__, "msg": str(e)[:80]}, None
 
 
-def run_view(via, store, required, headers):
+def run_view(via, store, required, headers, query=""):
     """a view guarded by the integration's decorator; `ran` records whether the view body executed and which token it saw"""
     import json as _json
     ran = {}
@@ -248,7 +251,7 @@ def run_view(via, store, required, headers):
             def view():
                 ran["token"] = current_token.access_token if current_token else None
                 return "ok"
-            resp = app.test_client().get("/r", headers=headers)
+            resp = app.test_client().get("/r" + query, headers=headers)
             status, text, www = resp.status_code, resp.get_data(as_text=True), "WWW-Authenticate" in resp.headers
         else:
             from django.conf import settings
@@ -266,7 +269,7 @@ def run_view(via, store, required, headers):
             def view(request):
                 ran["token"] = request.oauth_token.access_token if request.oauth_token else None
                 return HttpResponse("ok")
-            resp = view(RequestFactory().get("/r", **{"HTTP_" + k.upper().replace("-", "_"): v for k, v in headers.items()}))
+            resp = view(RequestFactory().get("/r" + query, **{"HTTP_" + k.upper().replace("-", "_"): v for k, v in headers.items()}))
             status, text, www = resp.status_code, resp.content.decode(), "WWW-Authenticate" in resp
     except Exception as e:
         return {"raised": type(e).__name__, "msg": str(e)[:80]}
@@ -330,7 +333,7 @@ def impl_bearer(c):
                 except Exception as e:
                     return {"raised": type(e).__name__, "msg": str(e)[:80]}
         if c.get("via") in ("flask-view", "django-view"):
-            return run_view(c["via"], store, c["required"], headers)
+            return run_view(c["via"], store, c["required"], headers, "?access_token=tok" if c.get("query_token") else "")
         out, tok = run_protector(rp, norm_req(c["required"]), headers)
         if tok is not None:
             out["current"] = tok.access_token
